@@ -502,6 +502,32 @@ func checkOperationResult(t *rapid.T) {
 		checkRoundTrip(t, "TransactResponse", tr, sig, hasNested(sig))
 		return
 	}
+	// the other direction: an error result as a peer sends it (RFC 7047 error strings) ->
+	// Go error -> result must give the result back
+	if rapid.Bool().Draw(t, "fromwire") {
+		name := rapid.SampledFrom(rfcErrorStrings).Draw(t, "rfcerror")
+		r := ovsdb.OperationResult{Error: name, Details: genWireString(t)}
+		kase := c12Case{Type: "error-result", Go: fmt.Sprintf("%+v", r)}
+		y, b, err := roundTrip(r)
+		kase.JSON = string(b)
+		if err != nil {
+			kit.Fail(t, "C12", "roundtrip.error", kase, "error result does not round-trip: %v", err)
+		}
+		op := ovsdb.Operation{Op: "insert", Table: "T0"}
+		opErrs, terr := ovsdb.CheckOperationResults([]ovsdb.OperationResult{y.(ovsdb.OperationResult)}, []ovsdb.Operation{op})
+		if terr == nil || len(opErrs) != 1 {
+			kit.Fail(t, "C12", "roundtrip.error", kase, "CheckOperationResults reports %d errors for %s", len(opErrs), b)
+		}
+		if _, generic := opErrs[0].(*ovsdb.Error); generic {
+			kit.Fail(t, "C12", "roundtrip.error", kase, "the RFC 7047 error %q is not recognised (%T)", name, opErrs[0])
+		}
+		again := ovsdb.ResultFromError(opErrs[0])
+		if again.Error != r.Error || again.Details != r.Details {
+			kit.Fail(t, "C12", "roundtrip.error", kase, "error result %q/%q became %q/%q after result -> error -> result", r.Error, r.Details, again.Error, again.Details)
+		}
+		kit.Record("C12", "error-result:"+name, true, func() interface{} { return kase }, "type:error-result")
+		return
+	}
 	// errors: Go error -> result -> wire -> result -> Go error of the same kind
 	details := genWireString(t)
 	errs := []error{
@@ -556,6 +582,12 @@ func checkOperationResult(t *rapid.T) {
 	}
 	kit.Record("C12", fmt.Sprintf("error:%d:%v", i, atCommit), true, func() interface{} { return kase }, "type:error")
 }
+
+// rfcErrorStrings are the error strings of RFC 7047 (4.1.3, 5.1, 5.2) that libovsdb spells
+// the same way ("duplicate uuid-name" is spelt "duplicate uuid name" by libovsdb and is
+// left out: observation in DESIGN.md, not part of this property).
+var rfcErrorStrings = []string{"referential integrity violation", "constraint violation", "resources exhausted", "I/O error",
+	"domain error", "range error", "timed out", "not supported", "aborted", "not owner"}
 
 // ---- schemas ----
 
